@@ -68,7 +68,7 @@ MIN_EVENTS = {
 # cases per stream: (quick, thorough)
 COUNTS = {
     'dense': (60, 600), 'dense_general': (80, 900), 'einsum': (50, 500), 'conv': (260, 4500), 'conv_local': (60, 900),
-    'conv_transpose': (150, 2400), 'embed': (50, 500), 'embed_int': (30, 300), 'pool': (120, 1500), 'norm': (220, 3600), 'batchnorm': (70, 1200),
+    'conv_transpose': (150, 2400), 'embed': (50, 500), 'embed_int': (30, 300), 'pool': (120, 1500), 'norm': (220, 3600), 'norm_highrank': (40, 400), 'batchnorm': (70, 1200),
     'dropout': (40, 300), 'lora': (12, 100),
 }
 
@@ -744,6 +744,9 @@ def run_embed(ctx, c, npr):
       check_dtype(ctx, 'embed.attend', out, c['dt'] or L().promote(c['xdt'], c['pdt']))
   worst = 'float32' if str(a.dtype) == str(an.dtype) == 'float32' else ('bfloat16' if 'bfloat16' in (str(a.dtype), str(an.dtype)) else 'float16')
   agree(ctx, a, an, worst, 'embed.attend')
+  # same parameters, same query: the two APIs compute attend in the same dtype
+  ctx.check(str(a.dtype) == str(an.dtype), 'linen_vs_nnx:embed.attend.default_dtype' if c['dt'] is None else 'linen_vs_nnx:embed.attend.dtype',
+            lambda: dict(linen=str(a.dtype), nnx=str(an.dtype), query=c['xdt'], param_dtype=c['pdt'], dtype=c['dt']))
 
 
 def gen_pool(rng):
@@ -1023,6 +1026,38 @@ def run_norm(ctx, c, npr):
 
 
 STREAMS['norm'] = (gen_norm, run_norm, lambda c: int(np.prod(c['shape'])) > 2)
+
+
+def gen_norm_highrank(rng):
+  """Inputs of rank 9-11 (mostly size-1 dimensions): axis indices >= 8, where the iteration order of a Python set of ints is no
+  longer the sorted order."""
+  kind = rng.choice(['layer', 'layer', 'rms', 'group'])
+  c = dict(kind=kind, eps=rng.choice(EPSILONS), use_scale=True, use_bias=kind != 'rms', fast=rng.random() < 0.5, mask=rng.choice([None, None, 'full']),
+           f32red=True, xdt='float32', pdt='float32', dt=None)
+  nd = rng.randint(9, 11)
+  shape = [1] * nd
+  hi = rng.randint(8, nd - 1)
+  lo = rng.randint(0, 7)
+  if kind == 'group':
+    g, gs = rng.randint(1, 2), rng.randint(2, 3)
+    shape[-1] = g * gs
+    lo = rng.randint(1, 7)
+    shape[lo] = rng.randint(2, 3)
+    red = sorted({lo, nd - 1} | ({rng.randint(1, nd - 2)} if rng.random() < 0.5 else set()))
+    c.update(shape=tuple(shape), num_groups=g, group_size=None, reduction_axes=_spell(rng, red, nd, allow_int=False))
+  else:
+    shape[hi], shape[lo] = rng.randint(2, 3), rng.randint(2, 4)
+    two_feat = rng.random() < 0.5
+    feat = sorted([lo, hi]) if two_feat else [hi]
+    red = sorted({lo, hi} | ({rng.randint(0, nd - 1)} if rng.random() < 0.4 else set()))
+    if rng.random() < 0.5:
+      red = list(reversed(red))
+      feat = list(reversed(feat))
+    c.update(shape=tuple(shape), reduction_axes=_spell(rng, red, nd, allow_int=False), feature_axes=_spell(rng, feat, nd, allow_int=False))
+  return c
+
+
+STREAMS['norm_highrank'] = (gen_norm_highrank, run_norm, lambda c: True)
 
 
 # ---------------------------------------------------------------------------------------------
